@@ -276,7 +276,9 @@ def run(chk, R, tier, seed):
     rng = random.Random("C04-%d" % seed)
     for c in ("equal across units", "near-ties", "decimal/fraction twins",
               "sorted lists", "unit pairs", "same-scale unit pairs",
-              "worlds", "quantized type"):
+              "worlds", "quantized type",
+              "worlds with a deviating converter registered on a type with "
+              "reference unit"):
         chk.require(c)
     w = predefined_world()
     cases = []
